@@ -163,3 +163,23 @@ Example C05_buffer_nonvacuous :
   let sizes := [8; 0; 4; 1; 8; 8; 2; 0; 4; 16] in
   phys_entry_remove sizes 10 [5%N; 2%N] [11%N; 12%N; 13%N] 2 = Some ([1%N; 2%N], [11%N; 13%N], 12%N).
 Proof. vm_compute. reflexivity. Qed.
+
+
+(** batch adoption (World::extend): a caller's Vec becomes a column only where the column is empty and owns no
+    allocation (read off the source); then the store stays sound, and every block still has its owner *)
+Theorem C05_batch_adoption : forall s i vals spare want, CInv s ->
+  exists s', cextend_src s i vals spare want = Some s' /\ CInv s'.
+Proof. exact cextend_src_inv. Qed.
+Check (C05_batch_adoption : forall s i vals spare want, CInv s ->
+  exists s', cextend_src s i vals spare want = Some s' /\ CInv s').
+Print Assumptions C05_batch_adoption.
+
+(** ... and the capacity test is needed: a column emptied by clear (length 0, capacity kept) would lose its block *)
+Theorem C05_adoption_needs_the_capacity_test :
+  match crun true true true cinit adopt_leak_history with
+  | Some s => match cextend false s 0 [7%N] 0 0 with
+              | Some s' => match free_all s' with Some s'' => length (hp_blocks (fst s'')) | None => 99 end
+              | None => 99 end
+  | None => 99
+  end = 1.
+Proof. exact adopt_without_guard_leaks. Qed.
